@@ -646,9 +646,11 @@ func runC10(env *Env) {
 	one := c10Universe[:1]
 	if env.Thorough() {
 		c10Enumerate(env, 1, one, true, true, 7, "exhaustive/1key-2tags-depth7")
+		c10Enumerate(env, 3, one, false, false, 10, "exhaustive/1key-1tag-depth10")
 		c10Enumerate(env, 2, c10Universe, false, false, 5, "exhaustive/4keys-depth5")
 	} else {
 		c10Enumerate(env, 1, one, true, true, 5, "exhaustive/1key-2tags-depth5")
+		c10Enumerate(env, 3, one, false, false, 8, "exhaustive/1key-1tag-depth8")
 		c10Enumerate(env, 2, c10Universe, false, false, 3, "exhaustive/4keys-depth3")
 	}
 	n := 1500
